@@ -367,6 +367,7 @@ type JSON struct {
 	Keys    []string
 	Vals    []*JSON
 	Present []*Term
+	First   *JSON // Kind "invalid" only: the text starts with this complete value and continues with other non-blank data
 }
 
 type JBytes struct{ J *JSON }
@@ -1012,6 +1013,11 @@ func init() {
 	})
 	regVerif("JNull", func(e *Engine, fn *ssa.Function, a []Value, s ssa.Instruction) Value {
 		return JBytes{&JSON{Kind: "null"}}
+	})
+	// JTrailing(doc): the text of doc followed by further non-blank data: not a JSON document,
+	// but a streaming decoder reads doc as its first value
+	regVerif("JTrailing", func(e *Engine, fn *ssa.Function, a []Value, s ssa.Instruction) Value {
+		return JBytes{&JSON{Kind: "invalid", First: e.jdoc(a[0])}}
 	})
 	regVerif("JInvalid", func(e *Engine, fn *ssa.Function, a []Value, s ssa.Instruction) Value {
 		return JBytes{&JSON{Kind: "invalid"}}
